@@ -713,8 +713,8 @@ def run(ctx):
         ['sfc_models/equation.py', 'sfc_models/utils.py'])}
     out.trusted_base = ['Coq 8.16.1 kernel + vm_compute',
                         'hand-written model coq/Eqn/Lexer.v, Term.v, Equation.v (tied by this correspondence)',
-                        'Reals axioms of the standard library in the value theorems (sig_forall_dec, sig_not_dec, '
-                        'functional_extensionality_dep) as printed by Print Assumptions',
+                        'Reals axioms of the standard library in the value theorems (ClassicalDedekindReals.sig_forall_dec, '
+                        'FunctionalExtensionality.functional_extensionality_dep) as printed by Print Assumptions; the other theorems are closed',
                         "Python's own tokenize/ast/eval as the meaning of rendered text (oracle)",
                         'str(float(c)) of an integer-valued coefficient is its decimal digits followed by .0 (|c| < 1e16)']
     out.assumptions = ['coefficients are integer-valued floats (sums of +-1.0, or integer Constants set on Term objects)',
